@@ -306,6 +306,24 @@ OWNER_WITNESSES = [
      "let mut outer: Bump = Bump::new();\nouter.scoped(|scope| {\n    let mut inner: Bump = Bump::new();\n    touch(BumpAllocator::as_mut_scope(scope)); touch(inner.as_mut_scope());\n});\ntouch(&outer);"),
 ]
 
+# ---------------------------------------------------------------------------------------------------------------
+# pool witnesses: handles obtained through a pool guard that can observe the arena must not outlive the guard,
+# because the pool hands the arena to the next user (possibly on another thread) as soon as the guard is gone.
+POOL_WITNESSES = [
+    ("Stats taken through a pool guard outlive the guard (a second, unsynchronised reader of an arena the pool hands to the next user)",
+     "let pool: BumpPool = BumpPool::new();\nlet stats = pool.get().stats();\ntouch(&stats);",
+     "let pool: BumpPool = BumpPool::new();\nlet g = pool.get();\nlet stats = g.stats();\ntouch(&stats);"),
+    ("Stats taken through a pool guard are used after drop(guard)",
+     "let pool: BumpPool = BumpPool::new();\nlet g = pool.get();\nlet stats = g.stats();\ndrop(g);\ntouch(&stats);",
+     "let pool: BumpPool = BumpPool::new();\nlet g = pool.get();\nlet stats = g.stats();\ntouch(&stats);\ndrop(g);"),
+    ("a pool guard cannot be used after the pool was reset",
+     "let mut pool: BumpPool = BumpPool::new();\nlet g = pool.get();\npool.reset();\ntouch(&g);",
+     "let mut pool: BumpPool = BumpPool::new();\nlet g = pool.get();\ntouch(&g);\ndrop(g);\npool.reset();"),
+    ("BumpPool::reset needs exclusive access: not callable while another borrow of the pool hands out guards",
+     "let mut pool: BumpPool = BumpPool::new();\nlet shared = &pool;\nlet x = shared.get().alloc_str(\"a\").into_ref();\npool.reset();\ntouch(&x);",
+     "let mut pool: BumpPool = BumpPool::new();\nlet shared = &pool;\nlet x = shared.get().alloc_str(\"a\").into_ref();\ntouch(&x);\npool.reset();"),
+]
+
 S = "<BumpSettings as BumpAllocatorSettings>"
 CONVERSION_WITNESSES = [
     # (name, witness body, twin body)
